@@ -53,8 +53,11 @@ import (
 )
 
 type ncStep struct {
-	Op     string  `json:"op"` // req | flush | inject (On: make mergeBatches panic from now on / stop)
-	On     bool    `json:"on"`
+	Op string `json:"op"` // req | flush | inject (On: make mergeBatches panic from now on / stop) | gate | release
+	On bool   `json:"on"`
+	// Async (gated cases): send the request on its own goroutine and go on as soon as it is parked inside the
+	// gated storage write; its HTTP status is reported by the following "release" step
+	Async  bool    `json:"async"`
 	Method string  `json:"method"` // default POST
 	Path   string  `json:"path"`   // path + query
 	DB     *string `json:"db"`     // x-arc-database header, absent when null
@@ -66,10 +69,15 @@ type ncStep struct {
 }
 
 type ncCase struct {
-	ID      int      `json:"id"`
-	MaxRows int      `json:"max_rows"` // ingest.max_buffer_size
-	Typed   *bool    `json:"typed"`    // nil: as NewMsgPackHandler decides (production)
-	Steps   []ncStep `json:"steps"`
+	ID      int   `json:"id"`
+	MaxRows int   `json:"max_rows"` // ingest.max_buffer_size
+	Typed   *bool `json:"typed"`    // nil: as NewMsgPackHandler decides (production)
+	// Fresh: run the case alone in a child process of its own with GOMAXPROCS(1) (empty sync.Pools, deterministic
+	// pool hand-off between consecutive requests)
+	Fresh bool `json:"fresh"`
+	// Gated: the storage backend's Write can be made to block ("gate" step) until a "release" step
+	Gated bool     `json:"gated"`
+	Steps []ncStep `json:"steps"`
 }
 
 type ncObs struct {
@@ -129,16 +137,58 @@ func ncCompress(enc string, body []byte) ([]byte, error) {
 	return body, nil
 }
 
+// ncGatedBackend is the real LocalBackend whose next Write can be parked: forced interleavings of a flush that is
+// inside its storage write (shard lock released) with another request.
+type ncGatedBackend struct {
+	storage.Backend
+	mu      sync.Mutex
+	armed   bool
+	entered chan struct{}
+	release chan struct{}
+}
+
+func (g *ncGatedBackend) arm() {
+	g.mu.Lock()
+	g.armed = true
+	g.entered = make(chan struct{})
+	g.release = make(chan struct{})
+	g.mu.Unlock()
+}
+
+func (g *ncGatedBackend) Write(ctx context.Context, path string, data []byte) error {
+	g.mu.Lock()
+	park := g.armed
+	g.armed = false // only the first write after arming is parked
+	entered, release := g.entered, g.release
+	g.mu.Unlock()
+	if park {
+		close(entered)
+		<-release
+	}
+	return g.Backend.Write(ctx, path, data)
+}
+
 func ncRunCase(c ncCase, root string, emit func(ncLine)) error {
 	dir := ncCaseDir(root, c.ID)
 	if err := os.MkdirAll(dir, 0o755); err != nil {
 		return err
 	}
 	logger := zerolog.Nop()
-	backend, err := storage.NewLocalBackend(dir, logger)
+	local, err := storage.NewLocalBackend(dir, logger)
 	if err != nil {
 		return err
 	}
+	var backend storage.Backend = local
+	var gate *ncGatedBackend
+	if c.Gated {
+		gate = &ncGatedBackend{Backend: local}
+		backend = gate
+	}
+	type asyncResult struct {
+		status int
+		msg    string
+	}
+	var pending []chan asyncResult
 	maxRows := c.MaxRows
 	if maxRows <= 0 {
 		maxRows = 1000000
@@ -165,6 +215,39 @@ func ncRunCase(c ncCase, root string, emit func(ncLine)) error {
 		case "inject":
 			ingest.VerifNoCrashPanic.Store(s.On)
 			emit(ncLine{Case: c.ID, Step: k, Ev: "status", Status: 0})
+		case "gate":
+			if gate == nil {
+				return fmt.Errorf("gate step in a case that is not gated")
+			}
+			gate.arm()
+			emit(ncLine{Case: c.ID, Step: k, Ev: "status", Status: 0})
+		case "release":
+			// let the parked storage write go on, then collect the parked request(s); the status reported is the
+			// last parked request's
+			st := 0
+			if gate != nil {
+				gate.mu.Lock()
+				rel := gate.release
+				gate.mu.Unlock()
+				if rel != nil {
+					select {
+					case <-rel:
+					default:
+						close(rel)
+					}
+				}
+			}
+			msg := ""
+			for _, ch := range pending {
+				select {
+				case r := <-ch:
+					st, msg = r.status, r.msg
+				case <-time.After(60 * time.Second):
+					return fmt.Errorf("parked request did not finish")
+				}
+			}
+			pending = nil
+			emit(ncLine{Case: c.ID, Step: k, Ev: "status", Status: st, Message: msg})
 		case "flush":
 			done := make(chan error, 1)
 			go func() { done <- buf.FlushAll(context.Background()) }() // bare goroutine, as periodicFlush
@@ -191,6 +274,36 @@ func ncRunCase(c ncCase, root string, emit func(ncLine)) error {
 			}
 			if s.DB != nil {
 				req.Header.Set("x-arc-database", *s.DB)
+			}
+			if s.Async {
+				if gate == nil {
+					return fmt.Errorf("async request in a case that is not gated")
+				}
+				ch := make(chan asyncResult, 1)
+				pending = append(pending, ch)
+				go func() {
+					resp, err := srv.GetApp().Test(req, 60000)
+					if err != nil {
+						ch <- asyncResult{-1, err.Error()}
+						return
+					}
+					io.Copy(io.Discard, resp.Body) //nolint:errcheck
+					resp.Body.Close()
+					ch <- asyncResult{resp.StatusCode, ""}
+				}()
+				gate.mu.Lock()
+				entered := gate.entered
+				gate.mu.Unlock()
+				// 0: parked inside the storage write; 3: it finished (or 10 s passed) without reaching the gate
+				st := 0
+				select {
+				case <-entered:
+				case <-time.After(10 * time.Second):
+					st = 3
+				}
+				emit(ncLine{Case: c.ID, Step: k, Ev: "status", Status: st})
+				emit(ncLine{Case: c.ID, Step: k, Ev: "settled"})
+				continue
 			}
 			var m0, m1 runtime.MemStats
 			if s.Measure {
@@ -242,6 +355,9 @@ func TestVerifNoCrashChild(t *testing.T) {
 	}
 	if err := json.Unmarshal(raw, &cases); err != nil {
 		t.Fatal(err)
+	}
+	if os.Getenv("VERIF_NC_ONEPROC") == "1" {
+		runtime.GOMAXPROCS(1)
 	}
 	lo, _ := strconv.Atoi(os.Getenv("VERIF_NC_LO"))
 	hi, _ := strconv.Atoi(os.Getenv("VERIF_NC_HI"))
@@ -331,7 +447,7 @@ func ncCountRows(root string, id int) (map[string]int, int) {
 	return rows, files
 }
 
-func ncRunRange(t *testing.T, casesPath, root string, cases []ncCase, lo, hi int, out []ncObs) {
+func ncRunRange(t *testing.T, casesPath, root string, cases []ncCase, lo, hi int, out []ncObs, oneProc bool) {
 	exe, err := os.Executable()
 	if err != nil {
 		t.Fatal(err)
@@ -342,6 +458,9 @@ func ncRunRange(t *testing.T, casesPath, root string, cases []ncCase, lo, hi int
 		cmd := exec.Command(exe, "-test.run", "^TestVerifNoCrashChild$", "-test.count=1")
 		cmd.Env = append(os.Environ(), "VERIF_NC_CHILD=1", "VERIF_NC_IN="+casesPath, "VERIF_NC_LO="+strconv.Itoa(start),
 			"VERIF_NC_HI="+strconv.Itoa(hi), "VERIF_NC_LOG="+logPath, "VERIF_NC_ROOT="+root, "GOTRACEBACK=all")
+		if oneProc {
+			cmd.Env = append(cmd.Env, "VERIF_NC_ONEPROC=1")
+		}
 		var stderr bytes.Buffer
 		cmd.Stderr = &stderr
 		cmd.Stdout = &stderr
@@ -447,18 +566,51 @@ func TestVerifNoCrash(t *testing.T) {
 	if w, err := strconv.Atoi(os.Getenv("VERIF_NC_WORKERS")); err == nil && w > 0 {
 		workers = w
 	}
-	if workers > len(cases) {
-		workers = len(cases)
+	if workers < 1 {
+		workers = 1
 	}
+	// "fresh" cases: each alone in a child of its own; the others in ranges that contain no fresh case
 	var wg sync.WaitGroup
-	for w := 0; w < workers; w++ {
-		lo := len(cases) * w / workers
-		hi := len(cases) * (w + 1) / workers
-		wg.Add(1)
-		go func() {
-			defer wg.Done()
-			ncRunRange(t, casesPath, root, cases, lo, hi, out)
-		}()
+	sem := make(chan struct{}, workers)
+	var plain [][2]int
+	start := -1
+	for i := range cases {
+		if cases[i].Fresh {
+			if start >= 0 {
+				plain = append(plain, [2]int{start, i})
+				start = -1
+			}
+			wg.Add(1)
+			go func(i int) {
+				defer wg.Done()
+				sem <- struct{}{}
+				defer func() { <-sem }()
+				ncRunRange(t, casesPath, root, cases, i, i+1, out, true)
+			}(i)
+		} else if start < 0 {
+			start = i
+		}
+	}
+	if start >= 0 {
+		plain = append(plain, [2]int{start, len(cases)})
+	}
+	for _, r := range plain {
+		n := r[1] - r[0]
+		parts := workers
+		if parts > n {
+			parts = n
+		}
+		for w := 0; w < parts; w++ {
+			lo := r[0] + n*w/parts
+			hi := r[0] + n*(w+1)/parts
+			wg.Add(1)
+			go func() {
+				defer wg.Done()
+				sem <- struct{}{}
+				defer func() { <-sem }()
+				ncRunRange(t, casesPath, root, cases, lo, hi, out, false)
+			}()
+		}
 	}
 	wg.Wait()
 	for i := range out {
